@@ -49,6 +49,19 @@ pub struct Step {
     pub nested: Option<(u8, TmOp)>,
 }
 
+pub const LOCAL_ASN: u32 = 65000;
+
+/// (role, remote AS) for role code `r` of peer `i`
+pub fn role_of(r: u8, i: u8) -> (table::PeerRole, u32) {
+    match r % 5 {
+        0 => (table::PeerRole::Ebgp, 65100 + i as u32),
+        1 => (table::PeerRole::Ibgp, LOCAL_ASN),
+        2 => (table::PeerRole::IbgpRrClient, LOCAL_ASN),
+        3 => (table::PeerRole::RsClient, 65100 + i as u32),
+        _ => (table::PeerRole::ConfedEbgp, 64600 + i as u32),
+    }
+}
+
 pub fn peer_ip(i: u8) -> IpAddr {
     match i % N_PEERS {
         2 => IpAddr::V6("2001:db8:ffff::2".parse::<Ipv6Addr>().unwrap()),
@@ -135,12 +148,18 @@ fn policy_variants() -> (Vec<Option<Arc<table::PolicyAssignment>>>, Vec<table::P
 
 impl Rig {
     pub fn new(with_kernel: bool) -> Rc<Rig> {
+        Self::with_roles(with_kernel, [0, 0, 0])
+    }
+
+    /// roles: 0 eBGP, 1 iBGP, 2 iBGP route-reflector client, 3 route-server client, 4 confederation eBGP
+    pub fn with_roles(with_kernel: bool, roles: [u8; 3]) -> Rc<Rig> {
         let tm = Arc::new(TableManager::new(N_SHARDS));
         let sources = (0..N_PEERS)
             .map(|i| {
                 let a = peer_ip(i);
                 let local = if a.is_ipv4() { IpAddr::V4(Ipv4Addr::new(10, 0, 0, 1)) } else { IpAddr::V6("2001:db8:ffff::1".parse().unwrap()) };
-                Arc::new(table::Source::new(a, local, 65100 + i as u32, 65000, Ipv4Addr::new(1, 1, 1, 10 + i), table::PeerRole::Ebgp))
+                let (role, asn) = role_of(roles[i as usize], i);
+                Arc::new(table::Source::new(a, local, asn, LOCAL_ASN, Ipv4Addr::new(1, 1, 1, 10 + i), role))
             })
             .collect();
         let (policies, keep) = policy_variants();
